@@ -71,6 +71,7 @@ type ChildResult struct {
 	PanicText string // first panic / fatal error line
 	RainFrame string // first github.com/cenkalti/rain frame of the crashing goroutine (not verifx)
 	OpenCase  string // case that had started and not ended
+	LastEnded string // last case that ended
 	Cases     int    // cases ended
 	LogPath   string
 	Tail      string
@@ -149,6 +150,7 @@ func (r *Run) SpawnBin(bin, role string, env []string, timeout time.Duration) Ch
 				if open == l.K {
 					open = ""
 				}
+				res.LastEnded = l.K
 				res.Cases++
 			case "eval":
 				r.Eval(int(l.N))
@@ -236,6 +238,13 @@ func (r *Run) RunChildren(role string, n, children int, prefix string, perCase t
 				if !res.Crashed && !res.TimedOut {
 					return
 				}
+				if res.Exit == ExitAbortedCase && res.OpenCase == "" && res.LastEnded != "" {
+					// the child judged a case itself (e.g. non-termination) and gave up its process
+					var k int
+					fmt.Sscanf(strings.TrimPrefix(res.LastEnded, prefix), "%d", &k)
+					lo = k + 1
+					continue
+				}
 				if res.OpenCase == "" {
 					r.Inconclusive(role + " child ended abnormally outside a case: " + res.PanicText)
 					return
@@ -254,6 +263,10 @@ func (r *Run) RunChildren(role string, n, children int, prefix string, perCase t
 	}
 	wg.Wait()
 }
+
+// ExitAbortedCase is the exit status of a child that reported a verdict for its current case and
+// cannot continue in this process (a goroutine of the code under test is stuck).
+const ExitAbortedCase = 7
 
 // ChildRange parses VX_RANGE.
 func ChildRange() (lo, hi int) {
